@@ -417,6 +417,34 @@ pub fn loop_commit_products() -> Vec<Node> {
     dedup_by_print(out)
 }
 
+/// Counted repeats whose lower bound exceeds the upper bound (`x{1,0}`, `x{3,2}`) around VM-interpreted and plain
+/// children, bare and inside loops / groups: the crate must reject them (finding F24) or treat them sanely.
+pub fn inverted_repeat_patterns() -> Vec<Node> {
+    let children = vec![
+        cat(vec![Look(bx(Lit('a')), false, false), Lit('a')]),
+        Lit('a'),
+        Group(bx(Lit('a'))),
+        Atomic(bx(Lit('a'))),
+        cat(vec![Assert(A::WordB), Lit('a')]),
+        Alt(vec![Lit('a'), cat(vec![Lit('a'), Lit('b')])]),
+    ];
+    let mut out = vec![];
+    for c in &children {
+        for (lo, hi) in [(1u32, 0u32), (3, 2), (2, 1), (2, 0)] {
+            for q in [Q::Greedy, Q::Lazy, Q::Poss] {
+                let r = Repeat(bx(c.clone()), lo, Some(hi), q);
+                out.push(r.clone());
+                out.push(cat(vec![Repeat(bx(r.clone()), 0, None, Q::Greedy), Lit('b')]));
+                out.push(cat(vec![Group(bx(r.clone())), Backref(c.n_groups() + 1)]));
+                out.push(cat(vec![Look(bx(Empty), false, false), r.clone(), Lit('b')]));
+                out.push(Repeat(bx(Group(bx(r.clone()))), 1, None, Q::Greedy));
+                out.push(Look(bx(r), true, false));
+            }
+        }
+    }
+    dedup_by_print(out)
+}
+
 /// contexts that introduce conditionals (C15)
 pub fn cond_contexts() -> Vec<Ctx> {
     fn g(n: Node) -> Node {
